@@ -133,6 +133,9 @@ func (e *SpecEnv) ident(name string) Val {
 	if name == "nil" {
 		return NilV{}
 	}
+	if g := c.ghostVarDecl(name); g != nil {
+		return c.ghostVar(e.cur, g)
+	}
 	if name == "range_i" {
 		// hidden index of the innermost enclosing range loop
 		var best types.Object
